@@ -271,6 +271,79 @@ Definition sqr (kthr sthr : nat) (P : poly) : poly :=      (* no setdegree *)
   | _ => sqr_r (length P) kthr sthr (length P) (2 * length P - 1) P
   end.
 
+(* ---------------- givpoly1midmul.inl: middle product MP(P,Q) = the m = |P|-|Q|+1 central coefficients of P*Q ---------------- *)
+Definition slice (P : poly) (a n : nat) : poly := firstn n (skipn a P).
+Definition zipadd (A B : poly) : poly := map (fun xy => add_ (fst xy) (snd xy)) (combine A B).
+Definition zipsub (A B : poly) : poly := map (fun xy => sub_ (fst xy) (snd xy)) (combine A B).
+(* rows 1.. of stdmidmul: for bi = Q[n-1-t] != 0, R[j] += P[t+j]*bi *)
+Fixpoint mid_rows (R Pt rq : poly) : poly :=
+  match rq, Pt with
+  | bq :: rq', _ :: Pt' => mid_rows (if is0 bq then R else addshift R 0 (map (fun a => mul_ a bq) Pt)) Pt' rq'
+  | _, _ => R
+  end.
+(* stdmidmul on ranges; PRECONDITION of the code: Q non-empty, the result range has |P|-|Q|+1 entries *)
+Definition stdmidmul_r (P Q : poly) : poly :=
+  let nR := length P - length Q + 1 in
+  match rev Q with
+  | [] => zeros nR
+  | bl :: rq =>
+    let row0 := if is0 bl then map (fun _ => O_) P else map (fun a => if is0 a then O_ else mul_ a bl) P in
+    mid_rows (resize nR row0) (tl P) rq
+  end.
+(* karamidmul on ranges (balanced: |P| = 2|Q|-1); rec = the recursive dynamic choice midmul(R,Rbeg,Rend,P,..,Q,..) *)
+Definition karamidmul_body (rec : poly -> poly -> poly) (P Q : poly) : poly :=
+  match length Q with
+  | O => []
+  | S O => [mul_ (coef P 0) (coef Q 0)]
+  | n =>
+    let n0 := Nat.div2 n in let n1 := n - n0 in
+    let Q0 := firstn n0 Q in let Q1 := skipn n0 Q in
+    let R0 := rec (zipadd (slice P 0 (2 * n1 - 1)) (slice P n1 (2 * n1 - 1))) Q1 in       (* S0 = MP(P1+ + P0, Q1) *)
+    let R1 := rec (zipadd (slice P n1 (2 * n0 - 1)) (skipn (2 * n1) P)) Q0 in             (* S1 = MP(P1- + P2, Q0) *)
+    let T3 := if n0 =? n1 then zipsub Q1 Q0
+              else match Q1 with [] => [] | q :: Q1' => q :: zipsub Q1' Q0 end in        (* Q1 - X^(n%2) Q0 *)
+    let S2 := rec (slice P n1 (2 * n1 - 1)) T3 in                                         (* S2 = MP(P1+, Q1 - X^(n%2) Q0) *)
+    subshift R0 0 S2 ++ addshift R1 0 S2
+  end.
+(* the m > n loop: blocks i = 0, n, 2n, ... while i <= m-n *)
+Fixpoint midmul_blocks (kb : poly -> poly -> poly) (P Q : poly) (n i cnt : nat) : poly :=
+  match cnt with
+  | O => []
+  | S c => kb (slice P i (2 * n - 1)) Q ++ midmul_blocks kb P Q n (i + n) c
+  end.
+(* the m < n loop: Tmp = karamidmul(P[Pe-(2m-1),Pe), Q[Qb,Qb+m)); R += Tmp; Pe -= m; Qb += m *)
+Fixpoint midmul_acc (kb : poly -> poly -> poly) (R P Q : poly) (m pe qb cnt : nat) : poly :=
+  match cnt with
+  | O => R
+  | S c => midmul_acc kb (addshift R 0 (kb (slice P (pe - (2 * m - 1)) (2 * m - 1)) (slice Q qb m))) P Q m (pe - m) (qb + m) c
+  end.
+Fixpoint midmul_r (fuel thr : nat) (P Q : poly) : poly :=
+  match fuel with
+  | O => stdmidmul_r P Q
+  | S f =>
+    let n := length Q in let m := length P - n + 1 in
+    let kb := karamidmul_body (midmul_r f thr) in
+    if Nat.min m n <=? thr then stdmidmul_r P Q
+    else if m =? n then kb P Q
+    else if n <? m then
+      let k := (m - n) / n + 1 in
+      midmul_blocks kb P Q n 0 k ++ (if k * n <? m then midmul_r f thr (skipn (k * n) P) Q else [])
+    else
+      let R0 := kb (slice P (length P - (2 * m - 1)) (2 * m - 1)) (firstn m Q) in
+      let k := (n - m) / m in                                          (* iterations with Qb <= Qend-m, Qb = m, 2m, ... *)
+      let R1 := midmul_acc kb R0 P Q m (length P - m) m k in
+      let qb := m + k * m in let pe := length P - m - k * m in
+      if qb <? n then addshift R1 0 (midmul_r f thr (firstn pe P) (skipn qb Q)) else R1
+  end.
+(* public midmul(R,P,Q), stdmidmul(R,P,Q), karamidmul(R,P,Q) (PRECONDITION: |P| >= |Q| >= 1; |P| = 2|Q|-1 for karamidmul) *)
+Definition midmul (thr : nat) (P Q : poly) : poly :=
+  match P, Q with
+  | [], _ | _, [] => []
+  | _, _ => setdegree (midmul_r (length P) thr P Q)
+  end.
+Definition stdmidmul (P Q : poly) : poly := setdegree (stdmidmul_r P Q).
+Definition karamidmul (thr : nat) (P Q : poly) : poly := setdegree (karamidmul_body (midmul_r (length P) thr) P Q).
+
 (* ---------------- givpoly1muldiv.inl: Newton inverse, division ---------------- *)
 Section WithThr.
 Variables (kthr sthr : nat).
@@ -533,10 +606,12 @@ Fixpoint powmod_pos (W pu U : poly) (p : positive) : poly :=
   | xO p' => powmod_pos W (mod_ (sqr kthr sthr pu) U) U p'
   | xI p' => powmod_pos (modin (mulin kthr W pu) U) (mod_ (sqr kthr sthr pu) U) U p'
   end.
-Definition powmod (P : poly) (n : N) (U0 : poly) : poly :=
+(* e0red: how the source initialises W (read from givpoly1misc.inl by the check on every run): `assign(W,one)` (false, the code
+   as written: 1 also for a non-zero constant modulus) or `mod(W, one, U)` (true, frag/C08.fix-12.diff) *)
+Definition powmod (e0red : bool) (P : poly) (n : N) (U0 : poly) : poly :=
   let U := setdegree U0 in                  (* mod(puiss,P,U) strips P and U in place before the loop *)
   match n with
-  | N0 => setdegree (assign [I_])
+  | N0 => if e0red then setdegree (mod_ [I_] U) else setdegree (assign [I_])
   | Npos p => setdegree (powmod_pos (assign [I_]) (mod_ P U) U p)
   end.
 
@@ -638,6 +713,37 @@ Definition axmy_s (a : T) (x y : poly) : poly := subin (mul_s x a) y.
 Definition axmyin (r a x : poly) : poly := neg (maxpyin r a x).
 Definition axmyin_s (r : poly) (a : T) (x : poly) : poly := neg (maxpyin_s r a x).
 End WithThr.
+(* shiftin(R,s) / shift(R,a,s): multiply by X^s; the empty vector stays empty *)
+Definition shiftin (R : poly) (s : nat) : poly := match R with [] => [] | _ => zeros s ++ R end.
+(* getEntry(c,i,P): degree(dP,P) strips P in place first *)
+Definition getEntry (P : poly) (i : nat) : T := if (degree P <? Z.of_nat i)%Z then O_ else coef (setdegree P) i.
+(* setEntry(P,c,i) on the vector stripped by degree(dP,P) *)
+Definition setEntry (P0 : poly) (c : T) (i : nat) : poly :=
+  let P := setdegree P0 in let dP := degree P in
+  if is0 c then
+    if (dP <? Z.of_nat i)%Z then P
+    else if (dP =? Z.of_nat i)%Z then setdegree (upd P i c)
+    else upd P i c
+  else upd (if (dP <? Z.of_nat i)%Z then resize (S i) P else P) i c.
+(* val(d,P): index of the first non-zero coefficient; -1 for the empty vector, 0 when no entry is non-zero *)
+Fixpoint val_from (P : poly) (i : nat) : Z :=
+  match P with [] => 0%Z | a :: P' => if is0 a then val_from P' (S i) else Z.of_nat i end.
+Definition val (P : poly) : Z := match P with [] => (-1)%Z | _ => val_from P 0 end.
+(* maxpy(r,a,b,c) with a scalar a: r = c - a*b *)
+Fixpoint maxpy_s_raw (a : T) (b c : poly) : poly :=
+  match b, c with
+  | [], _ => c
+  | _, [] => map (fun x => neg_ (mul_ a x)) b
+  | bi :: b', ci :: c' => sub_ ci (mul_ a bi) :: maxpy_s_raw a b' c'
+  end.
+Definition maxpy_s (a : T) (b c : poly) : poly :=
+  match b, c with
+  | [], _ => c
+  | _, [] => neg (mul_s b a)
+  | _, _ => setdegree (maxpy_s_raw a b c)
+  end.
+(* mod(R,P,u), modin(R,u) with a scalar divisor: the zero polynomial *)
+Definition mod_ps (P : poly) (u : T) : poly := zeros 0.
 End Model.
 
 (* ---------------- instance used by the correspondence run: Z/pZ, p prime (Modular<int32_t>) ---------------- *)
@@ -722,3 +828,30 @@ Definition zp_power_compose p := power_compose (ZpDom p).
 Definition zp_interpolate p := interpolate (ZpDom p).
 Definition zp_crt_toring p := crt_toring (ZpDom p).
 Definition zp_crt_torns p := crt_torns (ZpDom p).
+
+(* the protected range helpers driven directly (harness: struct Open, variants named r.xxx); a, b = sizes of the pads around the
+   ranges inside their containers (only sqrrec looks at the container: its temporary has P.size() entries) *)
+Definition zp_shiftin p := shiftin (ZpDom p).
+Definition zp_getEntry p := getEntry (ZpDom p).
+Definition zp_setEntry p := setEntry (ZpDom p).
+Definition zp_val p := val (ZpDom p).
+Definition zp_maxpy_s p := maxpy_s (ZpDom p).
+Definition zp_mod_ps p := mod_ps (ZpDom p).
+Definition zp_midmul p := midmul (ZpDom p).
+Definition zp_stdmidmul p := stdmidmul (ZpDom p).
+Definition zp_karamidmul p := karamidmul (ZpDom p).
+Definition zp_midmul_raw p k (P Q : list Z) := midmul_r (ZpDom p) (length P) k P Q.
+Definition zp_stdmidmul_raw p (P Q : list Z) := stdmidmul_r (ZpDom p) P Q.
+Definition zp_karamidmul_raw p k (P Q : list Z) := karamidmul_body (ZpDom p) (midmul_r (ZpDom p) (length P) k) P Q.
+Definition zp_mul_r p k (n : nat) (P Q : list Z) := mul_r (ZpDom p) (length P) k n P Q.
+Definition zp_stdmul_r p (n : nat) (P Q : list Z) := stdmul_r (ZpDom p) n P Q.
+Definition zp_karamul_r p k (n : nat) (P Q : list Z) := karamul_body (ZpDom p) (mul_r (ZpDom p) (length P) k) n P Q.
+Definition zp_sqr_r p k s (P : list Z) (a b : nat) :=
+  sqr_r (ZpDom p) (length P) k s (a + length P + b) (2 * length P - 1) P.
+Definition zp_stdsqr_r p (P : list Z) := stdsqr_r (ZpDom p) (2 * length P - 1) P.
+Definition zp_sqrrec_r p k s (P : list Z) (a b : nat) :=
+  let cP := (a + length P + b)%nat in
+  sqrrec_body (ZpDom p) (sqr_r (ZpDom p) (length P) k s cP) (mul_r (ZpDom p) (length P) k) cP (2 * length P - 1) P.
+Definition zp_subin_range p (R P : list Z) := subin_range (ZpDom p) R P.
+Definition zp_subin_grow p (R P : list Z) := setdegree (ZpDom p) (sub (ZpDom p) R P).
+Definition zp_subin_at p (R P : list Z) (off : nat) := subshift (ZpDom p) R off P.
